@@ -11,7 +11,7 @@ from .common import Vals, Stubs, real_env, I, cls_name
 
 MANIFEST_ENTRY = {
     'category': 'proof',
-    'text': 'pow on ints, sum over int lists, range, the 32-bit bitwise natives (shift counts 0..63 enumerated, word symbolic) are proved equal to their mathematical definitions for all integers with loop invariants; zip/zip_map symbolic-bounded; the library functions written in Checkerlang (set algebra, unique, reverse, flatten, grouped, filter, map_list, reduce, prod, enumerate, chunks, pairs, interval, min/max, mean/median*, gcd/lcm/abs/sign) are checked by bounded runtime contracts against host-language oracles over all permutations of small inputs; grouped with NULL elements and NULL keys in the stand-in; mean gives the identical float for every arrangement; gcd/lcm on the whole signed domain including zero; empty sum and product (bounded)',
+    'text': 'pow on ints, sum over int lists, range, the 32-bit bitwise natives (shift counts 0..63 enumerated, word symbolic) are proved equal to their mathematical definitions for all integers with loop invariants; zip/zip_map symbolic-bounded; the library functions written in Checkerlang (set algebra, unique, reverse, flatten, grouped, filter, map_list, reduce, prod, enumerate, chunks, pairs, interval, min/max, mean/median*, gcd/lcm/abs/sign) are checked by bounded runtime contracts against host-language oracles over all permutations of small inputs; grouped with NULL elements and NULL keys in the stand-in; mean gives the identical float for every arrangement; gcd/lcm on the whole signed domain including zero; empty sum and product (bounded); abs, sign, gcd and lcm of math.ckl are proved for all ints on the module\'s real AST (the real interpreter code executed symbolically over the nodes the real parser built; gcd by induction on |b| against the defining equations of Euclid\'s function)',
     'note': 'x ** y and & | ^ of CPython trusted (uninterpreted, named in the spec); Checkerlang library code is outside the VC generator (bounded only)',
     'technique': 'deductive verification: pyvc VCs from the real AST + z3/cvc5 (loop invariants); bounded runtime contracts for CKL library code',
 }
@@ -21,7 +21,9 @@ TRUSTED = ["CPython integer power x ** y (exponents >= 9 are an uninterpreted fu
            "CPython & | ^ on ints (uninterpreted, shared by spec and code); x & (2^m-1) == x mod 2^m; disjoint-bit | is +"]
 ASSUMPTIONS = ["bit functions: arguments are 32-bit words 0 <= a < 2^32 as their documentation says; shift counts 0..63 enumerated",
                "sum with an ignore list / decimals, zip, zip_map: symbolic-bounded (stated per unit)",
-               "library functions written in Checkerlang: bounded runtime contracts only"]
+               "library functions written in Checkerlang with loops: bounded runtime contracts only; abs/sign/gcd/lcm: proved on the module's real AST "
+               "(the heap built natively by the real interpreter is reflected into the engine - contracts/cklsym.py)",
+               "gcd: the defining equations of Euclid's function are proved; that they characterise the greatest common divisor is the textbook theorem (not re-proved)"]
 EXPLANATION = "exact-integer postconditions with loop invariants for the Python natives; bounded runtime contracts for CKL library code"
 
 W32 = 2 ** 32
